@@ -94,6 +94,16 @@ def gen_c03src():
     E.find1(r'inline bool checkEqualSmall\(const double a, const double b\)\s*\{\s*return\s*\(\s*std::fabs\(a - b\)\s*<=\s*equalToleranceSmall\s*\)\s*;\s*\}', core, 'checkEqualSmall')
     E.find1(r'inline bool checkDifferentSmall\(const double a, const double b\)\s*\{\s*return\s*!checkEqualSmall\(a,\s*b\)\s*;\s*\}', core, 'checkDifferentSmall')
 
+    # Projecter: the reward share and the possible-observation cut (Props/C03Trunc.lean `pointBackup_cut_sound`; the driver's `backupVec` links)
+    pj = flat('include/AIToolbox/POMDP/Algorithms/Utils/Projecter.hpp')
+    E.find1(r'immediateRewards_\s*/=\s*static_cast<double>\(O\)\s*;', pj, 'Projecter: reward share R/|O|')
+    E.find1(r'if\s*\(\s*!possibleObservations_\[a\]\[o\]\s*\)\s*\{\s*projections\[o\]\.emplace_back\(\s*immediateRewards_\.row\(a\)\s*,\s*a\s*,\s*VObs\(1,\s*0\)\s*\)\s*;\s*continue\s*;', pj,
+            'Projecter: impossible observation = bare reward share')
+    E.find1(r'projections\[o\]\.emplace_back\(\s*vproj\s*\*\s*discount_\s*\+\s*immediateRewards_\.row\(a\)\.transpose\(\)\s*,\s*a\s*,\s*VObs\(1,\s*i\)\s*\)\s*;', pj,
+            'Projecter: projection = discount * T (O . v) + reward share')
+    E.find1(r'if\s*\(\s*checkDifferentSmall\(\s*model_\.getObservationProbability\(s,\s*a,\s*o\)\s*,\s*0\.0\s*\)\s*\)\s*\{\s*possibleObservations_\[a\]\[o\]\s*=\s*true\s*;\s*break\s*;', pj,
+            'Projecter: possible observation = some successor with probability above equalToleranceSmall')
+
     p = flat(PERSEUS)
     E.find1(r'v\[0\]\[0\]\.values\.fill\(\s*minReward\s*/\s*\(\s*1\.0\s*-\s*model\.getDiscount\(\)\s*\)\s*\)\s*;', p, 'PERSEUS start')
 
